@@ -21,9 +21,17 @@ for patch in [os.path.abspath(x) for x in sys.argv[2:]]:
         b = subprocess.run("go build ./... 2>&1 | tail -3; cd cmd/hz && go build ./... 2>&1 | tail -3", shell=True, cwd=wt, capture_output=True, text=True, env=env)
         if b.stdout.strip():
             print("SKIP     %s: does not build: %s" % (patch, b.stdout.strip()[:200])); continue
-        with ThreadPoolExecutor(7) as ex:
-            rs = list(ex.map(lambda p: (p, subprocess.run([tmpbin, "-property", p, "-tier", "quick"], capture_output=True, text=True, env=env)), props))
-        alarms = [(p, [l[:260] for l in r.stdout.splitlines() if l.startswith("FAIL ")][:4]) for p, r in rs if r.returncode != 0]
+        # one process, one loaded world, the quick rules of all 20 properties (hzcheck -property all)
+        r = subprocess.run([tmpbin, "-property", "all"], capture_output=True, text=True, env=env)
+        alarms, cur = [], []
+        for l in r.stdout.splitlines():
+            if l.startswith("FAIL ") or l.startswith("CHECKER-"):
+                cur.append(l[:260])
+            elif l.startswith("summary property="):
+                if cur: alarms.append((l.split()[1].split("=")[1], cur[:4]))
+                cur = []
+        if r.returncode != 0 and not alarms:
+            alarms = [("?", ["exit %d: %s" % (r.returncode, (r.stdout + r.stderr)[-300:])])]
         if alarms:
             bad += 1
             print("ALARM    %s" % patch)
